@@ -124,6 +124,12 @@ func verifTruncatedHeader(delta []byte) bool {
 func verifC06Inputs() (src, delta []byte) {
 	src = verifrt.NondetBytes(verifrt.Range(verifrt.Param("SRCMIN"), verifrt.Param("SRC")))
 	delta = verifrt.NondetBytes(verifrt.Range(0, verifrt.Param("DELTA")))
+	if verifrt.Param("HDR1") == 1 {
+		// command-region variant: one-byte source- and target-size headers
+		verifrt.Assume(len(delta) >= 2)
+		verifrt.Assume(delta[0] < 0x80)
+		verifrt.Assume(delta[1] < 0x80)
+	}
 	return
 }
 
